@@ -32,6 +32,8 @@ PRIORS = [
     dict(mu=[[2.5, -3.0], [10.0, 2.5]], var=[[1.0, 4.0], [4.0, 0.25]], w=[0.375, 0.625]),
     dict(mu=[[-3.0, 2.5], [2.5, 2.5], [1000.0, 500.0]], var=[[1.0, 1.0], [4.0, 1.0], [1.0, 1.0]], w=[0.25, 0.5, 0.25]),
     dict(mu=[[2.5], [3.0], [-2000.0]], var=[[1.0], [0.25], [1.0]], w=[0.5, 0.25, 0.25]),
+    # features expressed in tiny units: variances far below machine epsilon, with correspondingly lower explicit floors
+    dict(mu=[[2.5], [10.0]], var=[[1.0], [4.0]], w=[0.5, 0.5], unit=2.0**-32),
 ]
 DATA = {
     1: {"near": [[2.0], [3.0], [3.5], [9.0], [11.5]], "one": [[4.0]], "dups": [[2.5], [2.5], [2.5]], "spread": [[-3.0], [0.0], [2.5], [6.0], [10.0], [12.0]]},
@@ -66,9 +68,12 @@ def cases(tier, seed):
 def _prior(pr, s, o):
     from bob.learn.em import GMMMachine
 
+    unit = pr.get("unit", 1.0)
     u = GMMMachine(len(pr["w"]), weights=np.array(pr["w"], float))
-    u.means = np.array(pr["mu"], float) * s + o
-    u.variances = np.array(pr["var"], float) * s * s
+    u.means = (np.array(pr["mu"], float) * s + o) * unit
+    if unit != 1.0:
+        u.variance_thresholds = unit * unit * 2.0**-60
+    u.variances = np.array(pr["var"], float) * s * s * unit * unit
     return u
 
 
@@ -84,13 +89,13 @@ def run_case(case):
     s, o = affine(case["seed"])
     pr = PRIORS[case["prior"]]
     D = len(pr["mu"][0])
-    X = np.array(DATA[D][case["data"]], float) * s + o
+    X = (np.array(DATA[D][case["data"]], float) * s + o) * pr.get("unit", 1.0)
     sw = tuple(case["sw"])
     kindr, val = case["rel"]
     relevance = val * 1.0 if kindr == "r" else None
     alpha = val if kindr == "a" else (np.array(val[: len(pr["w"])], float) if kindr == "aa" else 0.5)  # "aa": one fixed ratio per component
     tags0 = dict(sw="".join(map(str, sw)), rel=kindr)
-    scale = float(max(np.abs(X).max(), np.abs(np.array(pr["mu"]) * s + o).max())) + 1.0
+    scale = (float(max(np.abs(X).max() / pr.get("unit", 1.0), np.abs(np.array(pr["mu"]) * s + o).max())) + 1.0) * pr.get("unit", 1.0)
     ubm = _prior(pr, s, o)
     prior = _params(ubm)
     snapshot = [a.copy() for a in prior]
@@ -128,7 +133,8 @@ def run_case(case):
         P = _params(m)
         cur = traj[-1]
         st = og.stats(X, *cur)
-        w2, mu2, var2 = og.map_mstep(st, prior, cur, sw, relevance, alpha, EPS, EPS)
+        vfl = EPS if "unit" not in pr else pr["unit"] ** 2 * 2.0**-60
+        w2, mu2, var2 = og.map_mstep(st, prior, cur, sw, relevance, alpha, EPS, vfl)
         c.close(P[0], w2, "map_weights", f"weights after iteration {k}", tags0)
         c.close(float(P[0].sum()), 1.0, "map_weights", "adapted weights sum to one", tags0, rtol=1e-12)
         c.close(P[1], mu2, "map_means", f"means after iteration {k}", tags0, scale=scale)
@@ -139,7 +145,7 @@ def run_case(case):
         if sw[1]:
             good = np.allclose(P[2][mask], var2[mask], rtol=1e-9, atol=64 * EPS * scale * scale)
             if not good:
-                wd, mud, vard = og.map_mstep(st, prior, cur, sw, relevance, alpha, EPS, EPS, unsquared_prior_mean=True)
+                wd, mud, vard = og.map_mstep(st, prior, cur, sw, relevance, alpha, EPS, vfl, unsquared_prior_mean=True)
                 is_k1 = np.allclose(P[2], vard, rtol=1e-9, atol=64 * EPS * scale * scale)
                 c.check(False, "map_variances",
                         f"variances after iteration {k}: got {P[2].tolist()} want {var2.tolist()}" + (" (equals the formula with the prior mean unsquared)" if is_k1 else ""),
